@@ -123,14 +123,18 @@ def arr_binop(I, op, a, b, node):
                           spec.forall(0, b.n, lambda k: b.at(k) != 0), getattr(node, "lineno", None))
         else:
             I.path.oblige("zerodiv", f"{I.path.ordinal('zerodiv')}", to_term(b) != 0, getattr(node, "lineno", None))
+    # results are fresh arrays (copies): capture the element functions as they are NOW
     if isinstance(a, Arr) and isinstance(b, Arr):
         same_len(I, a, b, node)
-        return Arr(a.n, lambda k: scal(op, a.at(k), b.at(k), rk), rk)
+        fa, fb = a.at, b.at
+        return Arr(a.n, lambda k: scal(op, fa(k), fb(k), rk), rk)
     if isinstance(a, Arr):
+        fa = a.at
         bt = b.term if isinstance(b, RealV) else (as_real(b) if isinstance(b, (Quot, float)) else to_term(b))
-        return Arr(a.n, lambda k: scal(op, a.at(k), bt, rk), rk, a.dtype if rk == a.kind else None)
+        return Arr(a.n, lambda k: scal(op, fa(k), bt, rk), rk, a.dtype if rk == a.kind else None)
+    fb = b.at
     at_ = a.term if isinstance(a, RealV) else (as_real(a) if isinstance(a, (Quot, float)) else to_term(a))
-    return Arr(b.n, lambda k: scal(op, at_, b.at(k), rk), rk, b.dtype if rk == b.kind else None)
+    return Arr(b.n, lambda k: scal(op, at_, fb(k), rk), rk, b.dtype if rk == b.kind else None)
 
 
 def arr_compare(I, op, a, b, node):
@@ -150,12 +154,15 @@ def arr_compare(I, op, a, b, node):
         raise Unsupported("array comparison " + type(op).__name__)
     if isinstance(a, Arr) and isinstance(b, Arr):
         same_len(I, a, b, node)
-        return Arr(a.n, lambda k: scal(a.at(k), b.at(k)), "bool")
+        fa, fb = a.at, b.at
+        return Arr(a.n, lambda k: scal(fa(k), fb(k)), "bool")
     if isinstance(a, Arr):
+        fa = a.at
         bt = elem_term(b, a.kind)
-        return Arr(a.n, lambda k: scal(a.at(k), bt), "bool")
+        return Arr(a.n, lambda k: scal(fa(k), bt), "bool")
+    fb = b.at
     at_ = elem_term(a, b.kind)
-    return Arr(b.n, lambda k: scal(at_, b.at(k)), "bool")
+    return Arr(b.n, lambda k: scal(at_, fb(k)), "bool")
 
 
 # ---------------------------------------------------------------- indexing
@@ -207,7 +214,8 @@ def arr_getitem(I, a: Arr, key, node):
     if isinstance(key, Arr) and key.kind == "bool":
         same_len(I, a, key, node)
         m, src, rank = mask_filter(I, key)
-        return Arr(m, lambda k: a.at(src(k)), a.kind, a.dtype)
+        fa = a.at
+        return Arr(m, lambda k: fa(src(k)), a.kind, a.dtype)
     if isinstance(key, Arr) and key.kind == "int":
         # fancy indexing: every index must be in bounds
         I.path.oblige("bounds", f"{I.path.ordinal('bounds')}",
